@@ -215,6 +215,14 @@ static void root_case(Rng& rng, uint64_t)
 	if(rscale == 0.0)
 		acc_min = 1e-14 * width;
 	double acc = rng.coin(0.15) ? acc_min * rng.uni(1.0, 3.0) : rng.loguni(acc_min, width);
+	// "up to the bracket width": the width itself, as computed, and one ulp either side (seeded change C02-r7m2 returned the midpoint of a bracket
+	// that is not wider than the accuracy, without the step that solves linear functions exactly)
+	if(rng.coin(0.06))
+	{
+		acc = width;
+		if(rng.coin(0.4))
+			acc = rng.coin() ? std::nextafter(width, 0.0) : std::nextafter(width, INFINITY);
+	}
 	bool swapped = rng.coin(0.3);
 	auto tr = std::make_shared<Trace>();
 	auto f	= F.f;
